@@ -493,7 +493,16 @@ func c09Run(c *Ctx, idx int, rng *rand.Rand, sc *c09Scenario, dir string) {
 				go func() {
 					defer wg.Done()
 					for k := 0; k < nl; k++ {
-						_, _ = rs.Stage.Scan("1")
+						if k%2 == 0 {
+							_, _ = rs.Stage.Scan("1")
+						} else {
+							// ... or a sender thread whose request failed asks which parts
+							// of a file are on record
+							fj := group[k%len(group)]
+							cj := files[sc.Ops[fj].File]
+							t := tiles[sc.Ops[fj].File][k%len(tiles[sc.Ops[fj].File])]
+							_ = rs.Stage.Received([]sts.Binned{mkDesc(cj, 0, t.b, t.e)})
+						}
 						runtime.Gosched()
 					}
 					res.Count("listings_during_concurrent_receptions", int64(nl))
